@@ -1,0 +1,40 @@
+//go:build verif
+
+package spine
+
+import (
+	"github.com/enbility/spine-go/api"
+)
+
+// Verification hooks. Compiled only with -tags verif; add-only.
+
+// VerifYield, when set, is called at the named program points that lie
+// between two critical sections, so that a harness can drive interleavings.
+var VerifYield func(site string)
+
+func verifYield(site string) {
+	if f := VerifYield; f != nil {
+		f(site)
+	}
+}
+
+// VerifSubscribeCore subscribes a handler on the core level of the event bus.
+func VerifSubscribeCore(h api.EventHandlerInterface) error {
+	return Events.subscribe(api.EventHandlerLevelCore, h)
+}
+
+// VerifUnsubscribeCore removes a core level handler.
+func VerifUnsubscribeCore(h api.EventHandlerInterface) error {
+	return Events.unsubscribe(api.EventHandlerLevelCore, h)
+}
+
+// VerifReqCacheLen reports the size of the unanswered-request memory.
+func VerifReqCacheLen(s api.SenderInterface) int {
+	c, ok := s.(*Sender)
+	if !ok {
+		return -1
+	}
+	c.muxReadCache.RLock()
+	defer c.muxReadCache.RUnlock()
+	return len(c.reqMsgCache)
+}
